@@ -11,10 +11,13 @@ import (
 	"fmt"
 	"net/netip"
 	"os"
+	"path/filepath"
 	"runtime"
 	"strconv"
+	"strings"
 	"sort"
 	"sync"
+	"sync/atomic"
 	"testing"
 	"testing/synctest"
 	"time"
@@ -44,6 +47,7 @@ type spRoute struct {
 }
 
 type spStep struct {
+	K   string `json:"k,omitempty"`
 	Ev  string `json:"ev"`
 	Pol string `json:"pol,omitempty"`
 	P  string  `json:"p,omitempty"`
@@ -73,6 +77,7 @@ type spWorld struct {
 	byRid  map[string]string
 	gateMu sync.Mutex
 	gates  map[string]chan struct{} // neighbour address -> gate (closed = open)
+	watchCancel context.CancelFunc
 	srvPeers map[string]*peer
 }
 
@@ -643,8 +648,59 @@ func (w *spWorld) freeSessionUp(name string) {
 	}, 5000)
 }
 
+func (w *spWorld) chaosOp(st spStep) {
+	ctx := context.Background()
+	addr := ""
+	if sp, ok := w.peers[st.P]; ok {
+		addr = sp.addr.String()
+	}
+	switch st.K {
+	case "ListPath":
+		_ = w.ss.s.ListPath(apiutil.ListPathRequest{TableType: api.TableType_TABLE_TYPE_GLOBAL, Family: bgp.RF_IPv4_UC}, func(bgp.NLRI, []*apiutil.Path) {})
+		_ = w.ss.s.ListPath(apiutil.ListPathRequest{TableType: api.TableType_TABLE_TYPE_ADJ_OUT, Name: addr, Family: bgp.RF_IPv4_UC}, func(bgp.NLRI, []*apiutil.Path) {})
+	case "ListPeer":
+		_ = w.ss.s.ListPeer(ctx, &api.ListPeerRequest{EnableAdvertised: true}, func(*api.Peer) {})
+	case "WatchStart":
+		w.gateMu.Lock()
+		if w.watchCancel == nil {
+			c, cancel := context.WithCancel(ctx)
+			w.watchCancel = cancel
+			w.gateMu.Unlock()
+			_ = w.ss.s.WatchEvent(c, WatchEventMessageCallbacks{
+				OnBestPath:   func([]*apiutil.Path, time.Time) {},
+				OnPathUpdate: func([]*apiutil.Path, time.Time) {},
+				OnPeerUpdate: func(*apiutil.WatchEventMessage_PeerEvent, time.Time) {},
+			}, WatchBestPath(true), WatchUpdate(true, "", ""), WatchPeer())
+		} else {
+			w.gateMu.Unlock()
+		}
+	case "WatchStop":
+		w.gateMu.Lock()
+		c := w.watchCancel
+		w.watchCancel = nil
+		w.gateMu.Unlock()
+		if c != nil {
+			c()
+		}
+	case "Disable":
+		_ = w.ss.s.DisablePeer(ctx, &api.DisablePeerRequest{Address: addr, Communication: "verif"})
+	case "Enable":
+		_ = w.ss.s.EnablePeer(ctx, &api.EnablePeerRequest{Address: addr})
+	case "DelPeer":
+		_ = w.ss.s.DeletePeer(ctx, &api.DeletePeerRequest{Address: addr})
+	case "AddPeer":
+		pi := w.pinfo[st.P]
+		_ = w.ss.s.AddPeer(ctx, &api.AddPeerRequest{Peer: &api.Peer{
+			Conf:      &api.PeerConf{NeighborAddress: addr, PeerAsn: pi.AS},
+			Transport: &api.Transport{PassiveMode: true},
+		}})
+	}
+}
+
 func (w *spWorld) freeStep(st spStep) {
 	switch st.Ev {
+	case "Op":
+		w.chaosOp(st)
 	case "Up":
 		w.freeSessionUp(st.P)
 	case "Down":
@@ -659,99 +715,170 @@ func (w *spWorld) freeStep(st spStep) {
 	}
 }
 
+func spRaceReports() int {
+	prefix := os.Getenv("VERIF_RACELOG")
+	if prefix == "" {
+		return 0
+	}
+	n := 0
+	files, _ := filepath.Glob(prefix + "*")
+	for _, f := range files {
+		b, err := os.ReadFile(f)
+		if err == nil {
+			n += strings.Count(string(b), "WARNING: DATA RACE")
+		}
+	}
+	return n
+}
+
 func spRunFree(t *testing.T, tr *vpTrace, tid int, b *spBehaviour, seed int64) {
-	synctest.Test(t, func(t *testing.T) {
-		w := &spWorld{t: t, b: b, peers: map[string]*simPeer{}, pinfo: b.Peers, views: map[string]map[string]map[string]any{},
-			byAddr: map[string]string{}, byRid: map[string]string{}, gates: map[string]chan struct{}{}, srvPeers: map[string]*peer{}}
-		rng := newSplitMix(uint64(seed)*7919 + uint64(tid))
-		var rmu sync.Mutex
-		VerifYieldHook = func(site, peer string) {
-			rmu.Lock()
-			r := rng.next() % 4
-			rmu.Unlock()
-			if r == 0 {
-				runtime.Gosched()
+	health := map[string]any{"ev": "Health", "races": 0, "leak": false, "deadlock": false, "stuck": 0, "panic": ""}
+	racesBefore := spRaceReports()
+	var rows []map[string]any
+	var final map[string]any
+	func() {
+		defer func() {
+			if r := recover(); r != nil {
+				msg := fmt.Sprint(r)
+				switch {
+				case strings.Contains(msg, "blocked goroutines remain"):
+					health["leak"] = true
+				case strings.Contains(msg, "all goroutines in bubble are blocked"):
+					health["deadlock"] = true
+				default:
+					panic(r)
+				}
+				health["panic"] = msg
 			}
-		}
-		defer func() { VerifYieldHook = nil }()
-		w.ss = newSimServer(t, &api.Global{Asn: b.LocalAS})
-		names := make([]string, 0, len(b.Peers))
-		for n, pi := range b.Peers {
-			names = append(names, n)
-			w.byAddr[spAddr(pi.Idx)] = n
-			w.byRid[spRid(pi.Idx)] = n
-		}
-		sort.Strings(names)
-		for _, n := range names {
-			w.addPeer(n)
-		}
-		w.definePolicies()
-		synctest.Wait()
-		// split the schedule per actor
-		actors := map[string][]spStep{}
-		order := append([]string{}, names...)
-		order = append(order, "api")
-		policy := false
-		for _, st := range b.Steps {
-			a := st.P
-			switch st.Ev {
-			case "ApiAdd", "ApiDel", "SetImp", "SetExp", "ResetIn", "ResetOut", "ResetBoth":
-				a = "api"
-			case "UpHold", "Release", "Tick":
-				continue
+		}()
+		synctest.Test(t, func(t *testing.T) {
+			w := &spWorld{t: t, b: b, peers: map[string]*simPeer{}, pinfo: b.Peers, views: map[string]map[string]map[string]any{},
+				byAddr: map[string]string{}, byRid: map[string]string{}, gates: map[string]chan struct{}{}, srvPeers: map[string]*peer{}}
+			rng := newSplitMix(uint64(seed)*7919 + uint64(tid))
+			var rmu sync.Mutex
+			VerifYieldHook = func(site, peer string) {
+				rmu.Lock()
+				r := rng.next() % 4
+				rmu.Unlock()
+				if r == 0 {
+					runtime.Gosched()
+				}
 			}
-			if st.Ev == "SetImp" || st.Ev == "SetExp" {
-				policy = true
+			defer func() { VerifYieldHook = nil }()
+			w.ss = newSimServer(t, &api.Global{Asn: b.LocalAS})
+			names := make([]string, 0, len(b.Peers))
+			for n, pi := range b.Peers {
+				names = append(names, n)
+				w.byAddr[spAddr(pi.Idx)] = n
+				w.byRid[spRid(pi.Idx)] = n
 			}
-			actors[a] = append(actors[a], st)
-		}
-		var wg sync.WaitGroup
-		for _, a := range order {
-			steps := actors[a]
-			wg.Add(1)
-			go func() {
-				defer wg.Done()
-				for _, st := range steps {
-					w.freeStep(st)
-				}
-			}()
-		}
-		wg.Wait()
-		for _, n := range names {
-			w.peers[n].resume()
-		}
-		synctest.Wait()
-		tr.Emit(map[string]any{"ev": "Reset", "tid": tid, "peers": b.Peers, "mode": "free"})
-		for _, a := range order {
-			for _, st := range actors[a] {
-				row := map[string]any{"ev": st.Ev}
-				if st.P != "" {
-					row["p"] = st.P
-				}
-				if st.X != "" {
-					row["x"] = st.X
-				}
-				if st.Ev == "Ann" || st.Ev == "ApiAdd" {
-					row["r"] = st.R
-				}
-				if st.Pol != "" {
-					row["pol"] = st.Pol
-				}
-				tr.Emit(row)
+			sort.Strings(names)
+			for _, n := range names {
+				w.addPeer(n)
 			}
-		}
-		if policy {
-			w.softReset("all", api.ResetPeerRequest_DIRECTION_BOTH)
+			w.definePolicies()
 			synctest.Wait()
-			tr.Emit(map[string]any{"ev": "ResetBoth", "p": "all"})
-		}
-		tr.Emit(map[string]any{"ev": "Settle", "obs": w.observe()})
-		w.ss.stop()
-		for _, n := range names {
-			w.peers[n].closeConn()
-		}
-		synctest.Wait()
-	})
+			// split the schedule per actor
+			actors := map[string][]spStep{}
+			order := append([]string{}, names...)
+			order = append(order, "api", "ops")
+			policy := false
+			chaos := false
+			for _, st := range b.Steps {
+				a := st.P
+				switch st.Ev {
+				case "ApiAdd", "ApiDel", "SetImp", "SetExp", "ResetIn", "ResetOut", "ResetBoth":
+					a = "api"
+				case "UpHold", "Release", "Tick":
+					continue
+				case "Op":
+					a = "ops"
+					chaos = true
+				}
+				if st.Ev == "SetImp" || st.Ev == "SetExp" {
+					policy = true
+				}
+				actors[a] = append(actors[a], st)
+			}
+			rows = append(rows, map[string]any{"ev": "Reset", "tid": tid, "peers": b.Peers, "mode": "free"})
+			for _, a := range order {
+				for _, st := range actors[a] {
+					row := map[string]any{"ev": st.Ev}
+					if st.P != "" {
+						row["p"] = st.P
+					}
+					if st.X != "" {
+						row["x"] = st.X
+					}
+					if st.Ev == "Ann" || st.Ev == "ApiAdd" {
+						row["r"] = st.R
+					}
+					if st.Pol != "" {
+						row["pol"] = st.Pol
+					}
+					if st.K != "" {
+						row["k"] = st.K
+					}
+					rows = append(rows, row)
+				}
+			}
+			var running atomic.Int32
+			done := make(chan struct{})
+			var wg sync.WaitGroup
+			for _, a := range order {
+				steps := actors[a]
+				wg.Add(1)
+				running.Add(1)
+				go func() {
+					defer wg.Done()
+					defer running.Add(-1)
+					for _, st := range steps {
+						w.freeStep(st)
+					}
+				}()
+			}
+			go func() { wg.Wait(); close(done) }()
+			select {
+			case <-done:
+			case <-time.After(600 * time.Second): // virtual: every timer-driven retry has had its chance
+				health["stuck"] = int(running.Load())
+			}
+			w.gateMu.Lock()
+			if w.watchCancel != nil {
+				w.watchCancel()
+				w.watchCancel = nil
+			}
+			w.gateMu.Unlock()
+			for _, n := range names {
+				w.peers[n].resume()
+			}
+			synctest.Wait()
+			if policy && !chaos {
+				w.softReset("all", api.ResetPeerRequest_DIRECTION_BOTH)
+				synctest.Wait()
+				rows = append(rows, map[string]any{"ev": "ResetBoth", "p": "all"})
+			}
+			if !chaos {
+				final = map[string]any{"ev": "Settle", "obs": w.observe()}
+			}
+			w.ss.stop()
+			for _, n := range names {
+				w.peers[n].closeConn()
+			}
+			synctest.Wait()
+		})
+	}()
+	health["races"] = spRaceReports() - racesBefore
+	if rows == nil {
+		rows = []map[string]any{{"ev": "Reset", "tid": tid, "peers": b.Peers, "mode": "free"}}
+	}
+	for _, r := range rows {
+		tr.Emit(r)
+	}
+	if final != nil {
+		tr.Emit(final)
+	}
+	tr.Emit(health)
 }
 
 type splitMix struct{ s uint64 }
